@@ -312,11 +312,12 @@ def run(seed=0, rounds=3):
                 sel_m = M["masked_select"](I_, sx, sb)
                 nat = xs_.masked_select(bs_)
                 base_ = torch.zeros_like(xs_) - 7
-                sc_m = M["masked_scatter"](I_, _table(base_, "float")[0], sb, sel_m)
+                sbase, fbase = _table(base_, "float")
+                sc_m = M["masked_scatter"](I_, sbase, sb, sel_m)
                 nat_sc = base_.masked_scatter(bs_, nat)
                 from .interp import has_quantifier, to_z3
 
-                hy = fx + fb + _table(base_, "float")[1] + [h for h in I_.ex.pc if not has_quantifier(h)] + cmp_insts(I_)
+                hy = fx + fb + fbase + [h for h in I_.ex.pc if not has_quantifier(h)] + cmp_insts(I_)
                 claim = [to_z3(sel_m.shape[0]) == len(nat)] + [to_z3(sel_m.elem(z3.IntVal(k))) == _val(float(nat[k])) for k in range(len(nat))]
                 sol = z3.Solver()
                 sol.set("timeout", 20000)
